@@ -24,3 +24,4 @@ def rules(ctx):
     S.cache_reset_rules(ctx)
     S.mutator_release_rules(ctx)
     S.free_verdict_rules(ctx)
+    S.replaced_range_rules(ctx)
